@@ -198,6 +198,10 @@ func Registry() []*Spec {
 		Quick: map[string]int{"TEMPLATES": 6}, Thorough: map[string]int{"TEMPLATES": 8},
 		Covers: []string{"done"}, UnitDepth: 4,
 		Note: "string literals from 8 templates with symbolic content bytes (free bytes, escape letter, \\uXXXX with symbolic hex digits, surrogate pairs), as array element and as object key, through oj.Parse, oj.Tokenize+Builder, gen.Parse, sen.Parse vs the reference decoder"})
+	add(Spec{Property: "C02", Name: "VerifC02_StringsChunked", Pkg: "asm",
+		Quick: map[string]int{}, Thorough: map[string]int{},
+		Covers: []string{"done"}, UnitDepth: 4,
+		Note: "a document with two strings (the first through the escape path, the second one of 4 templates with symbolic content, escape letter or hex digits), as array elements and as member names, read by oj.ParseReader, oj.Tokenizer.Load, gen.ParseReader and sen.ParseReader with one split at every position: the second string decodes as the reference decoder says"})
 	add(Spec{Property: "C02", Name: "VerifC02_Numbers", Pkg: "asm", Arith: true,
 		Quick: map[string]int{"K1": 5, "K2": 3, "EXP": 2, "CTX": 2, "FE": 3, "F19": 2}, Thorough: map[string]int{"K1": 5, "K2": 3, "EXP": 3, "CTX": 2, "FE": 5, "F19": 2},
 		Covers: []string{"int64", "float64"}, UnitDepth: 6,
